@@ -100,6 +100,10 @@ zero_ss_rejected = bool(re.search(r"if algo_config\.individual_sample_size == 0\
 zero_nc_rejected = bool(re.search(r"if algo_config\.num_concurrent == 0\s*\{\s*return Err\(Error::ZeroNumConcurrent\);", meta_rs))
 default_ss = find(r"const DEFAULT_IND_SAMPLE_SIZE: usize = (\d+);", meta_rs, "DEFAULT_IND_SAMPLE_SIZE", "1", props="C08")
 default_nc = find(r"num_concurrent: self\.num_concurrent\.unwrap_or\((\d+)\)", meta_rs, "default num_concurrent", "1", props="C05")
+# get_child_result: the exit status is judged by `ExitStatus::success()` (false for a death by signal), before the output is parsed
+gcr = find(r"fn get_child_result\((.*?)\n\}", strip_tests(process_rs), "fn get_child_result", "", props="C06,C16")
+status_by_success = bool(re.search(r"if output\.status\.success\(\)\s*\{", gcr or "")) and \
+    ((gcr or "").find("output.status.success()") < ((gcr or "").find("from_slice") if "from_slice" in (gcr or "") else 10**9))
 builtins = find(r"const BUILT_IN_TYPE_NAMES:[^=]*=\s*&\[(.*?)\];", spec_util, "BUILT_IN_TYPE_NAMES", "", props="C10")
 builtins = re.findall(r'"([^"]*)"', builtins or "")
 
@@ -188,6 +192,9 @@ def keyMgrSeenIsMax : Bool := %s
 def keyMgrNextIsCounter : Bool := %s
 def keysRegisteredBeforeAlloc : Bool := %s
 
+/-- process.rs `get_child_result`: the child's exit status is judged by `ExitStatus::success()` and before its output is parsed -/
+def childStatusBySuccessFirst : Bool := %s
+
 /-- meta.rs `AlgoConfigBuilder::build`: defaults, and the two rejections -/
 def defaultSampleSize : Nat := %s
 def defaultNumConcurrent : Nat := %s
@@ -201,6 +208,7 @@ end Cambrian.Generated
        json.dumps(def_prefix), json.dumps(member_prefix),
        "true" if abort_guard else "false", "true" if completion_guard else "false", json.dumps(csv_header or ""), lean_list(csv_fields), "true" if reap_echild_ok else "false", "true" if scale_clamped else "false",
        "true" if key_seen_max else "false", "true" if key_next_counter else "false", "true" if key_registered_first else "false",
+       "true" if status_by_success else "false",
        default_ss, default_nc, "true" if zero_ss_rejected else "false", "true" if zero_nc_rejected else "false")
 
 old = open(OUT).read() if os.path.exists(OUT) else ""
